@@ -90,7 +90,12 @@ func (e *enc) callWith(c *ssa.CallCommon, args []Val, site ssa.Instruction, pos 
 				g := e.trBool(ca.E, env, "call-site reached_when")
 				saved := e.curReach
 				e.curReach = "true"
-				e.oblige1("assert", fmt.Sprintf("call %s#%d reached %s", short, ord, clauseName(ca)), ca.Props, ca.Src, "(=> "+and(g, e.enclosingReach(e.curBlock, nil))+" "+saved+")", pos)
+				ante := and(g, e.enclosingReach(e.curBlock, nil))
+				e.oblige1("assert", fmt.Sprintf("call %s#%d reached %s", short, ord, clauseName(ca)), ca.Props, ca.Src, "(=> "+ante+" "+saved+")", pos)
+				// vacuity guard: the condition must be satisfiable together with reaching this loop body; otherwise the
+				// clause sits on the wrong call site (ordinals follow the encoding order) and states nothing
+				e.curReach = ante
+				e.coverVac(fmt.Sprintf("call %s#%d reached %s antecedent", short, ord, clauseName(ca)), ca.Props, ca.Src, pos)
 				e.curReach = saved
 				continue
 			}
